@@ -40,6 +40,21 @@ fn parse_any_with(proto: Proto, layer: Layer, token: &str, footer: Option<&str>,
         p.footer(f);
       }
       let _ = p.parse(token, &lk);
+      // the same input through a CONFIGURED parser: expected text claims (non-empty and empty), an expected number, a
+      // validator - whatever the payload holds under those names (nothing, "", another type) is compared without unwinding
+      let specs = [ClaimSpec::Aud("audience".into()), ClaimSpec::Jti("id-1".into()), ClaimSpec::Sub(String::new()), ClaimSpec::Iss("i".into()), ClaimSpec::Custom("role".into(), serde_json::json!("admin")), ClaimSpec::Custom("n".into(), serde_json::json!(7))];
+      let mut q = new_parser(proto, l);
+      if let Some(f) = footer {
+        q.footer(f);
+      }
+      for (i, sp) in specs.iter().enumerate() {
+        if (token.len() + i) % 2 == 0 {
+          let _ = q.check(sp);
+        } else {
+          let _ = q.validate(sp, VALIDATOR_ACCEPTS);
+        }
+      }
+      let _ = q.parse(token, &lk);
     }
   })
 }
@@ -638,8 +653,17 @@ fn hostile_value() -> BoxedStrategy<serde_json::Value> {
         json!(s)
       }),
     2 => gen::json_value(3),
+    2 => Just(json!("")),
     1 => gen::unicode(12).prop_map(|s| json!(s)),
     1 => any::<i64>().prop_map(|i| json!(i)),
+    // JWT-style numeric dates: the whole range `time` can represent (years -9999 ..= 9999) and just outside it, the year
+    // 0000 / 0001 / 1970 / 9999 boundaries to the second, as integers and as floats
+    4 => prop_oneof![
+      3 => (-377_705_116_800i64..=253_402_300_799).prop_map(|i| json!(i)),
+      2 => (any::<u16>(), -2i64..=2).prop_map(|(k, d)| json!([-377_705_116_800i64, -62_167_219_200, -62_135_596_800, 0, 253_402_300_799, 253_402_300_800, -377_705_116_801, 4_102_444_800, -1, 1_700_000_000][pick(k, 10)] + d)),
+      1 => (-377_705_116_800i64..=253_402_300_799, 0u32..1000).prop_map(|(i, f)| json!(i as f64 + f as f64 / 1000.0)),
+      1 => (-377_705_116_800_000i64..=253_402_300_799_000).prop_map(|i| json!(i)),
+    ],
     1 => Just(json!(1e308)),
     1 => Just(json!(u64::MAX)),
   ]
@@ -647,7 +671,7 @@ fn hostile_value() -> BoxedStrategy<serde_json::Value> {
 }
 
 fn claim_case() -> BoxedStrategy<ClaimCase> {
-  (any::<u16>(), any::<u16>(), proptest::collection::vec((prop_oneof![4 => Just("exp".to_string()), 4 => Just("nbf".to_string()), 1 => Just("iat".to_string()), 1 => Just("sub".to_string()), 1 => gen::json_key()], hostile_value()), 0..4), 0u8..12)
+  (any::<u16>(), any::<u16>(), proptest::collection::vec((prop_oneof![4 => Just("exp".to_string()), 4 => Just("nbf".to_string()), 1 => Just("iat".to_string()), 1 => Just("sub".to_string()), 1 => gen::json_key(), 1 => Just("aud".to_string()), 1 => Just("jti".to_string()), 1 => Just("iss".to_string()), 1 => Just("role".to_string()), 1 => Just("n".to_string())], hostile_value()), 0..4), 0u8..12)
     .prop_map(|(p, l, members, shape)| {
       let obj: serde_json::Map<String, serde_json::Value> = members.into_iter().collect();
       let payload = match shape {
